@@ -131,11 +131,18 @@ func runC01(c *Ctx) {
 				// connectCmd: the subscribe goroutines are joined by WaitGroup.Wait in the parent
 				parent := caller.Parent()
 				wait := w.calleeIs("WaitGroup.Wait")
-				n := c.RequireMustPass("C01.R2", parent, "WaitGroup.Wait (join of server-side subscribes)", wait,
-					PathQ{Stop: stopMust, Goal: isReturn},
-					"every exit after the connect-time subscribes passes unlockServerSideSubscriptions",
-					"connect-time server-side subscriptions keep buffering forever on this exit")
-				_ = n
+				// (the fan-out may live in a helper of connectCmd: an exit of the helper continues in its caller)
+				waits := CallsIn(parent, false, wait)
+				if c.Anchor("C01.R2", "WaitGroup.Wait (join of server-side subscribes) call in "+FuncName(parent), len(waits) > 0) {
+					for _, wt := range waits {
+						bad := w.mustPassUp(wt, PathQ{Stop: stopMust, Goal: isReturn}, 2)
+						detail := "connect-time server-side subscriptions keep buffering forever on this exit"
+						if bad != nil {
+							detail = fmt.Sprintf("%s (path from WaitGroup.Wait (join of server-side subscribes) at %s reaches %s without it)", detail, w.InstrPos(wt), w.InstrPos(bad))
+						}
+						c.Check("C01.R2", wt, "every exit after the connect-time subscribes passes unlockServerSideSubscriptions", bad == nil, detail)
+					}
+				}
 			} else {
 				bad := PathQ{Stop: stopMust, Goal: isReturn, Edge: failEdge}.From(ci)
 				d := "server-side caller must release the buffer on every non-failing exit"
